@@ -12,11 +12,15 @@ mod ext_c09;
 mod gen_c09;
 mod ext_c11;
 mod ext_c14;
+mod ext_c04;
+mod ext_c05;
 mod enc;
 mod gen;
 mod interp;
 mod props;
 mod props2;
+mod props_path;
+mod props_sim;
 mod props_set;
 mod proto;
 mod rng;
